@@ -129,7 +129,7 @@ class SimDevice:
 
     # ---- light -----------------------------------------------------------
     def get_color(self):
-        self._request('get_color')
+        self._request('get_color', tuple(self.color))
         return tuple(self.color)
 
     def set_color(self, color, duration=0, rapid=False):
